@@ -159,7 +159,8 @@ def snapshot(det) -> dict:
         out["phase"] = None if a is None else np.array(a, copy=True)
     out["charge_array"] = np.array(det.charge.array, copy=True)
     fr = det.charge.frame
-    out["charge_frame"] = {c: np.array(fr[c].values, dtype=float, copy=True) for c in fr.columns}
+    # values as float64, plus the kind of the column's type (integer / float): a table whose integer column comes back as float is not the same table
+    out["charge_frame"] = {c: (str(np.asarray(fr[c].values).dtype.kind), np.array(fr[c].values, dtype=float, copy=True)) for c in fr.columns}
     out["scene"] = _tree(det.scene.data)
     out["data"] = _tree(det.data)
     return out
